@@ -96,10 +96,11 @@ func verifMkGroup(t string, ng, shape int) *yaml.Node {
 }
 
 func verifGroupSigs(n *yaml.Node) {
-	noName, labelsBad, limitBig := true, false, false
+	noName, noRules, labelsBad, limitBig := true, true, false, false
 	for i := 0; i+1 < len(n.Content); i += 2 {
 		k, v := n.Content[i], n.Content[i+1]
 		noName = verifAnd(noName, k.Value != "name")
+		noRules = verifAnd(noRules, k.Value != "rules")
 		bad := verifRefLabelsBad(v)
 		for j := 0; j+1 < len(v.Content); j += 2 {
 			bad = verifOr(bad, verifKeyErr(v.Content[j])) // `? [a]` style keys: their name is never looked at either
@@ -109,8 +110,9 @@ func verifGroupSigs(n *yaml.Node) {
 	}
 	// F7: group-level labels are checked for types and duplicates only, never for names/values
 	verifSig("C01-group-labels-unvalidated", labelsBad)
-	// a group without `name` is accepted as long as it has no `rules` either
-	verifSig("C01-group-without-name", noName)
+	// a group without `name` is accepted as long as it has no `rules` either (with `rules` pint does ask for a name, so
+	// the signature must not cover that case)
+	verifSig("C01-group-without-name", verifAnd(noName, noRules))
 	// `limit: 18446744073709551615` is an !!int that does not fit an int
 	verifSig("C01-group-limit-overflow", limitBig)
 }
